@@ -43,8 +43,10 @@ LinkVerdict(c, o) ==
   ELSE IF c.masked /\ \E p \in 1..Len(o.field) : ~o.mask[p] /\ o.field[p] # FieldC(c.dst)[p] THEN "transform-located@1"
   ELSE "ok"
 
+Raised(o) == "raised" \in DOMAIN o
 Verdict(t) ==
   LET c == t.case o == t.obs IN
+  IF Raised(o) THEN (IF c.what \in {"layout", "memo"} THEN "grid-raised@1" ELSE "grid-conversion-raised@1") ELSE
   CASE c.what = "layout" -> LayoutVerdict(c.L, o)
     [] c.what = "memo"   -> MemoFrom(c.L, c.ops, o.res, 1)
     [] c.what = "canon"  -> CanonVerdict(c.L, o)
